@@ -1,4 +1,5 @@
 import Pike.Lemmas.Reconfig
+import Pike.Spec.Skeleton
 /-
 C16 — live reconfiguration equals a fresh start and disturbs nothing unchanged.
 `Reconfig.update` is main.go's update(); `fresh c = update init c` is a process started with `c`.
@@ -6,6 +7,23 @@ C16 — live reconfiguration equals a fresh start and disturbs nothing unchanged
 namespace Pike
 namespace C16
 open Reconfig
+
+/-- Obligation on the regenerated statement skeleton of `main.run`: the configuration watcher is running before the
+first `update()` starts, so a configuration saved while that first update is still being applied triggers another
+update — the running instance ends up with the configuration that was saved last, as a fresh start would. -/
+theorem watch_before_first_update : Facts.skel_run = Spec.Skeleton.run := by rfl
+
+/-- Obligation on the regenerated statement skeletons of the server registry's life cycle (server/server.go):
+`servers.Reset` (close what is gone, update what stays, create what is new), `server.Update` (all settings replaced
+together under the write lock, the location list by a new slice), `server.Close` (graceful close, THEN the listener
+itself) and `convertConfig` (one option per server, the filter regexp per iteration) are what `Reconfig.resetServers`
+/ `effective` and the `reconf` suite's expectations were transcribed from. -/
+theorem server_lifecycle_transcribed :
+    Facts.skel_servers_Reset = Spec.Skeleton.servers_Reset
+    ∧ Facts.skel_server_Update = Spec.Skeleton.server_Update
+    ∧ Facts.skel_server_Close = Spec.Skeleton.server_Close
+    ∧ Facts.skel_convertConfig = Spec.Skeleton.convertConfig := by
+  refine ⟨?_, ?_, ?_, ?_⟩ <;> rfl
 
 /-- Obligation on the extracted facts: reload order, the min-length default in both NewServer
 and Update, delete-stale / keep-existing for dispatchers, add-then-remove for upstreams, a single
